@@ -67,3 +67,12 @@ Theorem C19_driver_fates_after_cancel :
       forall d r, In (d, r) new -> exists i f t0, nth_error (d_tasks st) i = Some (f, t0) /\ f_db f = d /\ fate t0 r.
 Proof. exact driver_fates_after_cancel. Qed.
 Print Assumptions C19_driver_fates_after_cancel.
+
+From SLT Require Import DriverProofs.
+
+(* Ctrl-C at any point before the end, or any reported failure, makes the exit status of the driver non-zero *)
+Theorem C19_driver_ctrlc_or_failure_exit_nonzero :
+  forall cf sched st tr, drun cf (dst0 cf) sched = (st, tr) ->
+    d_ctrlc st = true \/ (exists d b, In (d, RErr b) (d_reported st)) -> exit_of st <> 0%N.
+Proof. exact driver_ctrlc_or_failure_exit_nonzero. Qed.
+Print Assumptions C19_driver_ctrlc_or_failure_exit_nonzero.
